@@ -5,6 +5,12 @@ ALL = ["C%02d" % i for i in range(1, 21)]
 
 CHECKS = [
     {
+        "property_id": "C10",
+        "text": "Coq theorems on the protocol model for compaction and stale epochs (refusal while attached, strict epoch, stale push adds nothing for every request, stale pull rejected, stale detach accepted). The model replays the traffic of real histories with normal/forced compactions; oracles on the real server cover content preservation, refusal, stale-client handling and convergence after re-attach.",
+        "note": "Content preservation itself is an oracle (depends on the YSON rebuild, C18). Memory DB only.",
+        "technique": "Coq proof (epoch theorems on the protocol model) + trace replay correspondence + compaction oracles",
+    },
+    {
         "property_id": "C11",
         "text": "Coq: lifecycle specification with theorems over all states and calls. Tie: the real RPC server must agree with the specification call by call (verdict, stored statuses, stored change count) on exhaustive short and seeded longer call sequences incl. invalid calls; protocol-model replay of histories with detach/deactivate; exact-minimum oracle for the coupling with the version-vector table.",
         "note": "Trusted: Coq kernel, harness; memory DB only.",
